@@ -18,6 +18,7 @@ import BevySyncModel.Slice.Asset
 import BevySyncModel.Slice.Mat
 import BevySyncModel.Slice.Mark
 import BevySyncModel.Slice.Snap
+import BevySyncModel.Slice.Promo
 /-! `bsmodel`: runs the executable model definitions on the cases the Rust harness prints, one line
 in, one line out (`ok <id>` / `MISMATCH <id> <what>`).  Lines starting with `#` are ignored.
 Only model files are imported (no proofs, no Mathlib), so this links as a native executable.
@@ -775,6 +776,39 @@ def checkSnapJ (toks : List String) : String :=
     go j0 0 (script.splitOn ";")
   | _ => "MISMATCH parse snapj"
 
+/-! ### hand-over (C07): `promo <id> <others> <script>`; script tokens ;-separated: `p:<deliver>:<accepted>` a frame of the
+promoted client, `h:<deliver>:<progress>` a frame of the former host, `o` another client leaves the former host,
+`xh:<srv>:<promo>:<cli>:<clients>` / `xp:<srv>:<promo>:<cli>:<clients>` what the implementation shows after that frame
+(`cli` of the former host: 0 no transport, 1 connecting, 3 connected), `q:<n>` snapshot requests the new host received -/
+def checkPromo (toks : List String) : String :=
+  match toks with
+  | [others, script] =>
+    match others.toNat? with
+    | none => "MISMATCH parse promo others"
+    | some others =>
+      let b := fun (t : String) => t == "1"
+      let bs := fun (x : Bool) => if x then "1" else "0"
+      let rec go (s : Promo.State) (k : Nat) : List String → String
+        | [] => "ok"
+        | t :: rest =>
+          match t.splitOn ":" with
+          | ["p", d, a] => go (Promo.step s (.pFrame (b d) (b a))) (k + 1) rest
+          | ["h", d, g] => go (Promo.step s (.hFrame (b d) (b g))) (k + 1) rest
+          | ["o"] => go (Promo.step s .otherLeaves) (k + 1) rest
+          | ["xh", srv, pr, cli, cl] =>
+            let mc := if s.hCli == 4 then 3 else s.hCli
+            if bs s.hSrv == srv && bs s.hPromo == pr && toString mc == cli && toString s.hClients == cl then go s (k + 1) rest
+            else s!"MISMATCH promo: after {k} script steps the model's former host has server {bs s.hSrv} flag {bs s.hPromo} client {mc} clients {s.hClients}, the implementation server {srv} flag {pr} client {cli} clients {cl}"
+          | ["xp", srv, pr, cli, cl] =>
+            if bs s.pSrv == srv && bs s.pPromo == pr && bs s.pCli == cli && toString s.pClients == cl then go s (k + 1) rest
+            else s!"MISMATCH promo: after {k} script steps the model's promoted client has server {bs s.pSrv} flag {bs s.pPromo} client transport {bs s.pCli} clients {s.pClients}, the implementation server {srv} flag {pr} client transport {cli} clients {cl}"
+          | ["q", n] =>
+            if toString s.snapReq == n then go s (k + 1) rest
+            else s!"MISMATCH promo: the model's former host requested {s.snapReq} snapshot(s), the implementation {n}"
+          | _ => "MISMATCH parse promo script"
+      go (Promo.init others) 0 (script.splitOn ";")
+  | _ => "MISMATCH parse promo"
+
 def handle (st : DState) (line : String) : DState × Option String :=
   let line := line.trimAscii.toString
   if line.isEmpty || line.startsWith "#" then (st, none)
@@ -807,6 +841,7 @@ def handle (st : DState) (line : String) : DState × Option String :=
         | "mat" => checkMat rest
         | "mark" => checkMark rest
         | "snapj" => checkSnapJ rest
+        | "promo" => checkPromo rest
         | _ => "MISMATCH unknown line kind"
       (st, some s!"{r} {id}")
     | _ => (st, some "MISMATCH parse ?")
